@@ -28,7 +28,10 @@ func DocText(i int) string {
 	if i < len(Docs) {
 		return Docs[i]
 	}
-	return DocsX[i-len(Docs)]
+	if i < len(Docs)+len(DocsX) {
+		return DocsX[i-len(Docs)]
+	}
+	return DocsB[i-len(Docs)-len(DocsX)] // documents of the binding family (pool_bind.go)
 }
 
 // docIndex returns the index of a document text, adding it to DocsX if new.
